@@ -40,3 +40,23 @@ def c11():
         qs.append(Q(f"get_step_u{enc}", "C11_utf.cpp", "vh_get_step", {"ENC": enc}, unwind=8))
         qs.append(Q(f"put_get_u{enc}", "C11_utf.cpp", "vh_put_get", {"ENC": enc}, unwind=8))
     return qs
+
+# ------------------------------------------------------------------------------------------- C14
+META["C14"] = {
+    "bounds": "lz4::decompress on exact-size buffers: in_size 13..16 x out_size in_size+1..24 (quick subset), up to 20 x 32 (thorough); all input bytes symbolic",
+    "outside": "blocks > 20 bytes / outputs > 32 bytes; blocks shorter than the decoder's documented 13-byte minimum; segment-level equality of compressed vs uncompressed fonts (content equality of the decompressed table is what is decided)",
+    "assumptions": ["byte-wise reference LZ4 block decoder in harness/C14_lz4.cpp"],
+}
+@prop("C14")
+def c14():
+    qs = []
+    quick = {(13, 14), (13, 16), (13, 17), (14, 15), (14, 16), (15, 16)}
+    for i in range(13, 21):
+        for o in range(i + 1, 33):
+            if (i, o) in quick: tiers = ("quick", "thorough")
+            elif i <= 16 and ((o - i) % 3 == 1 or o in (24, 25)) and o <= 25: tiers = ("thorough",)
+            else: continue
+            us = {"read_literal": i + 1, "safe_copy": o + 1, "overrun_copy": o // 8 + 2, "fast_copy": o // 8 + 2, "decompress": i // 3 + 2,
+                  "ref_ext": i + 1, "ref_copy_lit": i + 1, "ref_copy_match": o + 1, "ref_lz4": i // 3 + 2, "vh_bytes": i + 1, "vh_lz4": o + 1}
+            qs.append(Q(f"lz4_in{i}_out{o}", "C14_lz4.cpp", "vh_lz4", {"IN": i, "OUT": o}, unwind=o + 3, unwindset=us, tiers=tiers))
+    return qs
